@@ -15,6 +15,7 @@ from harness import c06_util as U
 from translate import c06_vmf as T
 from translate import c06_prog as P
 from translate import c06_lite as L
+from translate import c06_ids as IDS
 from translate import c01_kvser
 
 MANIFEST = dict(
@@ -82,7 +83,7 @@ def required_class(block: str, key: str, idx: int) -> str:
 
 IMPORTS = ['Coq.NArith.NArith', 'Coq.ZArith.ZArith', 'Coq.Lists.List', 'Coq.Strings.String', 'SV.KV.KvBase', 'SV.Fmt.VmfText',
            'SV.Fmt.VmfBlocks', 'SV.Gen.VmfTemplates_gen', 'SV.Gen.VmfKeys_gen', 'SV.Gen.VmfDispSizes_gen', 'SV.Gen.VmfOrder_gen',
-           'SV.Gen.VmfProg_gen', 'SV.Fmt.VmfFields', 'SV.Gen.VmfFieldsCfg_gen', 'SV.Fmt.VmfNum', 'SV.Gen.VmfNumFmt_gen', 'SV.Fmt.VmfGuard', 'SV.Fmt.VmfLite', 'SV.Gen.VmfLite_gen', 'SV.Fmt.VmfFlags', 'SV.Gen.VmfFlags_gen', 'SV.Fmt.VmfTok', 'SV.Fmt.VmfPlane', 'SV.KV.KvSym', 'SV.Gen.KVSer_gen', 'SV.Props.C06']
+           'SV.Gen.VmfProg_gen', 'SV.Fmt.VmfFields', 'SV.Gen.VmfFieldsCfg_gen', 'SV.Fmt.VmfNum', 'SV.Gen.VmfNumFmt_gen', 'SV.Fmt.VmfGuard', 'SV.Fmt.VmfLite', 'SV.Gen.VmfLite_gen', 'SV.Fmt.VmfFlags', 'SV.Gen.VmfFlags_gen', 'SV.Fmt.VmfTok', 'SV.Fmt.VmfPlane', 'SV.Fmt.VmfIds', 'SV.Gen.VmfIds_gen', 'SV.KV.KvSym', 'SV.Gen.KVSer_gen', 'SV.Props.C06']
 PRE = '''Import ListNotations. Open Scope string_scope.
 Fixpoint nl_eqb (a b : list N) : bool := match a, b with [], [] => true | x :: a', y :: b' => N.eqb x y && nl_eqb a' b' | _, _ => false end.
 Fixpoint bad_idx {A} (f : A -> bool) (n : N) (l : list A) : list N := match l with [] => [] | x :: r => (if f x then [] else [n]) ++ bad_idx f (n + 1)%N r end.
@@ -464,6 +465,74 @@ Definition plane_chk (s : list N) : option (list (list (list N))) := match plane
             ck.extra[f'{name}_disagreement'] = repr(cases[bad[0]])
 
 
+def corr_ids(ck: Ck, idm: dict) -> None:
+    """The generated decision lists of the get_id methods against the real classes: for every class VMF.__init__ uses as an ID
+    manager, a fresh instance that already holds the IDs 1..39 is asked for generated IDs (-1, other negatives, 0, 1, used and unused
+    small numbers, huge numbers, repetitions); observed: "the answer is the requested ID".  The model must give that answer
+    for one of the two outcomes of its opaque condition (both, when the list has none).  And directly on the implementation
+    (oracle): every manager of VMF(preserve_ids=True) hands back every natural number it is asked for, also when asked twice."""
+    from srctools import vmf as V
+    progs = idm.get('programs', {})
+    cases = []
+    pool = [-1, -1, -7, 0, 0, 1, 2, 5, 39, 40, 41, 57, 1000, 65535, 2 ** 31 - 1, 2 ** 31, 2 ** 32, 2 ** 63, 10 ** 20]
+    for cname in sorted(progs):
+        cls = getattr(V, cname, None)
+        if cls is None:
+            ck.obligation('correspondence:id_manager_programs', False, f'class {cname} not importable')
+            return
+        for _ in range(ck.budget(12, 60)):
+            man = cls(range(1, 40))
+            for _ in range(ck.rng.randint(1, 6)):
+                d = ck.rng.choice(pool) if ck.rng.random() < 0.8 else ck.rng.randint(-3, 80)
+                try:
+                    with U.time_limit(10):
+                        r = man.get_id(d)
+                except Exception as e:       # noqa: BLE001 - a fault may make the method raise or loop: a failing input
+                    ck.violation(f'ids:get_id-error:{cname}', f'{cname}(range(1, 40)).get_id({d}) raised {type(e).__name__}: {e}',
+                                 {'class': cname, 'desired': d})
+                    r = None
+                cases.append((cname, d, r == d))
+                ck.count('id_manager_cases')
+                ck.hist('id_manager_request', 'sentinel -1' if d == -1 else 'negative' if d < 0 else 'zero' if d == 0 else
+                        'used 1..39' if d < 40 else 'huge' if d >= 2 ** 31 - 1 else 'free')
+                ck.seen(('idman', cname, d, len(cases)))
+    names = sorted(progs)
+    lit = coq_list(f'(({names.index(c)}%nat, ({d})%Z), {"true" if k else "false"})' for c, d, k in cases[:500])
+    pre = PRE + 'Definition prog_of (i : nat) : idprog := snd (nth i gen_id_classes (EmptyString, nil)).\n'
+    order_ok = ck.coq_eval(IMPORTS, ['map fst gen_id_classes'], name='idnames', preamble=PRE)
+    vals = ck.coq_eval(IMPORTS, [
+        f'bad_idx (fun c : (nat * Z) * bool => let p := prog_of (fst (fst c)) in let d := snd (fst c) in '
+        f'(Bool.eqb (is_keep (id_get p true d)) (snd c) || Bool.eqb (is_keep (id_get p false d)) (snd c))%bool) 0%N {lit}'],
+        name='idman', preamble=pre)
+    if vals is None or order_ok is None:
+        ck.obligation('correspondence:id_manager_programs', False, 'model could not be evaluated')
+        ck.tie_broken.append('correspondence id managers: model evaluation failed')
+        return
+    got_names = re.findall(r'"([^"]*)"', order_ok[0])
+    bad = parse_coq_N_list(vals[0])
+    ck.obligation('correspondence:id_manager_programs', not bad and got_names == names,
+                  f'{min(len(cases), 500)} requests to {names}, Fmt/VmfIds.id_get on the generated decision lists vs get_id: {len(bad)} disagreements')
+    if bad or got_names != names:
+        ck.tie_broken.append('correspondence id managers (generated decision list vs get_id)')
+        ck.extra['id_manager_disagreement'] = repr(cases[bad[0]]) if bad else repr((got_names, names))
+    ck.sample({'id_manager_case(class, requested, answer == requested)': list(cases[3])})
+    # oracle on the implementation: preserve_ids=True means every manager of the map hands back what it is asked for
+    for attr in sorted(idm.get('managers', {})):
+        m = V.VMF(preserve_ids=True)
+        man = getattr(m, attr)
+        for d in [0, 1, 0, 2, 7, 7, 1000000, 2 ** 31 - 1, 2 ** 32, 3, 1]:
+            ck.count('preserving_manager_requests')
+            try:
+                with U.time_limit(10):
+                    r = man.get_id(d)
+            except Exception as e:       # noqa: BLE001
+                r = f'{type(e).__name__}: {e}'
+            if r != d:
+                ck.violation(f'ids:manager:{attr}', f'VMF(preserve_ids=True).{attr}.get_id({d}) returned {r!r}: the ID is not preserved',
+                             {'manager': attr, 'desired': d, 'got': repr(r)})
+                break
+
+
 def rich_spec(seed: int = 7) -> dict:
     """A fixed specification that contains every kind of object (used to validate the translator's tables)."""
     rng = random.Random(seed)
@@ -782,6 +851,27 @@ def corpus_specs() -> list[tuple[str, dict]]:
     sd = U.gen_side_extra(rng, 0.0)
     sd['disp'] = d
     mk('multiblend-only-blend', brushes=[base_solid(sides=[sd] + [None] * 5)])
+    # IDs (round 4): every ID-carrying block (entity, world, solid, side, group, visgroup, nodeid) numbered from 0, sparse and huge,
+    # repeated; on the objects (route object) and in the text that is parsed (route text); with and without preserve_ids
+    def id_map(ids: dict, preserve: bool) -> dict:
+        two_vis = [{'name': 'v1', 'color': [1.0, 1.0, 1.0], 'children': [{'name': 'v3', 'color': [3.0, 3.0, 3.0], 'children': []}]},
+                   {'name': 'v2', 'color': [2.0, 2.0, 2.0], 'children': []}]
+        node = {'classname': 'info_node', 'nodeid': '__unique__'}
+        s = base_spec()
+        s.update(visgroups=two_vis, groups=[dict(grp[0]), dict(grp[0], shown=False)],
+                 brushes=[base_solid(vis=[0], group=0), base_solid(vis=[1, 2], group=1)],
+                 entities=[base_ent(vis=[0], groups=[0], keys=dict(node)), base_ent(vis=[1], groups=[1], keys=dict(node), solids=[base_solid()]),
+                           base_ent(hidden=True, keys=dict(node))], ids=ids)
+        s['opts'] = dict(s['opts'], preserve_ids=preserve)
+        return s
+    for route in ('object', 'text'):
+        out.append((f'ids-from-zero-{route}', id_map(dict({k: [0, 1, None] for k in U.ID_KINDS}, route=route), True)))
+        out.append((f'ids-sparse-huge-{route}', id_map({'route': route, 'ent': [2147483647, 1000, None], 'solid': [17, 7, None], 'face': [4294967296, 2, None],
+                                                       'group': [1000000, 1000, None], 'vis': [0, 1000, None], 'node': [0, 7, None]}, True)))
+        out.append((f'ids-repeated-{route}', id_map({'route': route, 'ent': [0, 1, 2], 'solid': [0, 0, None], 'face': [1, 1, 3],
+                                                    'group': [0, 2, None], 'vis': [0, 5, 2], 'node': [0, 1, 1]}, True)))
+        out.append((f'ids-sparse-renumbered-{route}', id_map({'route': route, 'ent': [17, 7, None], 'solid': [2, 2, None], 'face': [1000000, 1, None],
+                                                             'group': [5, 1000, None], 'vis': [2, 2, None], 'node': [3, 3, None]}, False)))
     return out
 
 
@@ -809,6 +899,13 @@ def feature_hist(ck: Ck, spec: dict) -> bool:
         'arbitrary_faces': any(s['kind'] == 'faces' for s in solids),
         'nasty_strings': any(any(c in v for c in '"\\\n') for e in ents for v in list(e['keys'].values()) + list(e['keys'])),
     }
+    ids = spec.get('ids') or {}
+    feats['id_scheme'] = bool(ids)
+    for kind in U.ID_KINDS:
+        if kind in ids:
+            st, step, wrap = ids[kind]
+            ck.hist('id_scheme', f"{ids['route']}:{kind}:" + ('from0' if st == 0 else 'from1' if st == 1 else 'huge' if st > 2 ** 31 - 2 else 'sparse')
+                    + (':repeated' if wrap or step == 0 else '') + ('' if spec['opts']['preserve_ids'] else ':unpreserved'))
     for k, v in feats.items():
         if v:
             ck.hist('features', k)
@@ -916,11 +1013,11 @@ def run(ck: Ck) -> None:
         'str.split, str.join, int() on digit strings and str.casefold behave as modelled (split_on, join, parse_digits; casefold enters '
         'the theorems as the section variables is_inst / same_var)',
     ]
-    oks = [ck.translate(name, fn) for name, fn in {**T.GEN, **P.GEN, **L.GEN}.items()]
+    oks = [ck.translate(name, fn) for name, fn in {**T.GEN, **P.GEN, **L.GEN, **IDS.GEN}.items()]
     # C01's generated parser sites (read-only use of C01's translator): premise pcfg_ok of the block theorem
     oks.append(ck.translate('KVSer_gen', c01_kvser.translate))
     tr = ck.extra.get('translated', {})
-    built = all(oks) and ck.build(['Gen/KVSer_gen.vo', 'Props/C06.vo'])
+    built = all(oks) and ck.build(['Gen/KVSer_gen.vo', 'Gen/VmfIds_gen.vo', 'Props/C06.vo'])
     if built:
         ck.theorems('Props/C06.v')
         obs: dict[str, str] = {}
@@ -977,6 +1074,15 @@ def run(ck: Ck) -> None:
         obs['object_classes_complete'] = f'({len(L.CLASSES)} <=? List.length lite_classes)%nat'
         obs['disp_flags_tables_inverse'] = 'flags_tables_ok gen_flags_written gen_flags_t2c gen_flags_sub gen_flags_count'
         obs['disp_flags_all_values'] = '(16 <=? gen_flags_count)%nat'
+        # IDs (round 4): every manager attribute of a VMF gets, under preserve_ids, a class whose get_id hands back every
+        # natural number it is asked for; every constructor that asks a manager stores its answer; VMF.parse hands the flag on
+        idm = tr.get('VmfIds_gen', {})
+        for attr in sorted(idm.get('managers', {})):
+            obs[f'ids_preserved_when_asked:{attr}'] = f'kind_ok gen_id_classes gen_id_managers gen_id_sites "{attr}"'
+        obs['id_managers_complete'] = '(6 <=? List.length gen_id_managers)%nat'
+        obs['parse_hands_preserve_ids_on'] = 'gen_parse_passes_preserve'
+        for c, idp in sorted(idm.get('programs', {}).items()):
+            ck.hist('id_manager_paths', c, len(idp))
         obs['output_field_count_and_recombination'] = '(Nat.eqb gen_out_exact_fields 5 && Nat.eqb gen_out_recombine_from 6)%bool'
         obs['output_field_order_agrees'] = ('(nlist_eqb gen_out_write_order (0 :: 1 :: 2 :: 3 :: 4 :: nil)%N && nlist_eqb gen_out_read_order (0 :: 1 :: 2 :: 3 :: 4 :: nil)%N)%bool')
         res = ck.instance_obligations(IMPORTS, obs, name='c06')
@@ -995,6 +1101,7 @@ def run(ck: Ck) -> None:
         corr_output_fixup(ck)
         corr_tokens(ck)
         corr_plane(ck)
+        corr_ids(ck, tr.get('VmfIds_gen', {}))
         try:
             validate_tables(ck, tr.get('VmfTemplates_gen', {}), tr.get('VmfKeys_gen', {}))
         except Exception as e:     # the rich map itself may fail to export when the source is broken: the search reports that
@@ -1049,6 +1156,12 @@ def run(ck: Ck) -> None:
         ck.explain('correspondence:output_')
     if any('fixups' in k or 'replaceN' in k for k in keys):
         ck.explain('correspondence:fixup_init')
+    if any(k.startswith('ids:') or k.endswith(('.id', ':id', ':visgroupid', ':groupid', ':nodeid')) for k in keys):
+        ck.explain('instance:ids_preserved_when_asked')
+        ck.explain('instance:parse_hands_preserve_ids_on')
+        ck.explain('instance:id_managers_complete')
+        ck.explain('correspondence:id_manager_programs')
+        ck.explain('translate:VmfIds_gen')
     if any(k.startswith('order:entities') or k.startswith('text::') for k in keys):
         ck.explain('instance:entity_blocks_read_in_file_order')
     if any('fixups' in k or 'replaceN' in k for k in keys):
